@@ -9,8 +9,8 @@ package main
 // both roles; then a second session continuing on the same counter store.
 
 import (
-	"github.com/b2broker/simplefix-go/session/messages"
 	"fmt"
+	"github.com/b2broker/simplefix-go/session/messages"
 	"strconv"
 	"strings"
 	"time"
@@ -340,12 +340,24 @@ func runC05(R *vlib.Out) {
 			Cfg string `json:"cfg"`
 		}
 		vlib.LoadReplay(&probe)
+		if probe.Cfg == "c05time" {
+			var c c05tCase
+			vlib.LoadReplay(&c)
+			R.Eval()
+			if sig, d, _ := execBody(func() (string, string) { return c05tRun(c) }); sig != "" {
+				R.Violate(sig, d, c)
+			}
+			return
+		}
 		if strings.HasPrefix(probe.Cfg, "c05hist/") {
 			replayHist(R, c05HistCfgs(*vlib.Tier))
 			return
 		}
 		replaySched(R, c05Scenario)
 		finishSched(R)
+		return
+	}
+	if !runC05time(R) {
 		return
 	}
 	for _, c := range c05HistCfgs(*vlib.Tier) {
